@@ -33,7 +33,7 @@ type planFn func(rg *rand.Rand) (cfgT, runFn)
 type class struct {
 	name   string
 	plan   planFn
-	weight int // scenarios per 624 (the quick -n)
+	weight int // scenarios per 634 (the quick -n)
 	min    int
 }
 
@@ -48,6 +48,7 @@ var classes = []class{
 	{"s1", planS1, 20, 4},
 	{"firstdial", planFirstDial, 10, 4},
 	{"straggler", planStraggler, 8, 8},
+	{"parkwrite", planParkWrite, 10, 10},
 }
 
 type job struct {
@@ -131,7 +132,7 @@ func main() {
 		if *only != "" && *only != cl.name {
 			continue
 		}
-		n := cl.weight * c.N / 624
+		n := cl.weight * c.N / 634
 		if n < cl.min {
 			n = cl.min
 		}
